@@ -634,9 +634,15 @@ func denseBytes(size int) []byte {
 const sigStack = "nested-group-stack-overflow"
 
 var childCases = []childCase{
-	{name: "length-0", build: func() []byte { return append(refcodec.EncodeHeader(refcodec.Header{Version: 1, Flags: 0x80, Code: 257, Length: 0}), make([]byte, 40)...) }, limitMiB: 3072, timeout: 60 * time.Second},
-	{name: "length-19", build: func() []byte { return append(refcodec.EncodeHeader(refcodec.Header{Version: 1, Flags: 0x80, Code: 257, Length: 19}), make([]byte, 40)...) }, limitMiB: 3072, timeout: 60 * time.Second},
-	{name: "claims-16MiB-sends-20", build: func() []byte { return refcodec.EncodeHeader(refcodec.Header{Version: 1, Flags: 0x80, Code: 257, Length: 0xFFFFFF}) }, limitMiB: 3072, timeout: 60 * time.Second},
+	{name: "length-0", build: func() []byte {
+		return append(refcodec.EncodeHeader(refcodec.Header{Version: 1, Flags: 0x80, Code: 257, Length: 0}), make([]byte, 40)...)
+	}, limitMiB: 3072, timeout: 60 * time.Second},
+	{name: "length-19", build: func() []byte {
+		return append(refcodec.EncodeHeader(refcodec.Header{Version: 1, Flags: 0x80, Code: 257, Length: 19}), make([]byte, 40)...)
+	}, limitMiB: 3072, timeout: 60 * time.Second},
+	{name: "claims-16MiB-sends-20", build: func() []byte {
+		return refcodec.EncodeHeader(refcodec.Header{Version: 1, Flags: 0x80, Code: 257, Length: 0xFFFFFF})
+	}, limitMiB: 3072, timeout: 60 * time.Second},
 	{name: "nested-64KiB", build: func() []byte { return nestedBytes(64 << 10) }, limitMiB: 3072, timeout: 120 * time.Second},
 	{name: "nested-1MiB", build: func() []byte { return nestedBytes(1 << 20) }, limitMiB: 3072, timeout: 120 * time.Second, noSerialize: true},
 	{name: "dense-1MiB", build: func() []byte { return denseBytes(1 << 20) }, limitMiB: 3072, timeout: 120 * time.Second},
@@ -670,7 +676,10 @@ func TestC03ChildWorker(t *testing.T) {
 			f = guard("Unmarshal", func() { m.Unmarshal(new(unmarshalNested)); m.Unmarshal(new(unmarshalAVPs)) })
 		}
 		if f == nil {
-			f = guard("FindAVP", func() { m.FindAVP(uint32(264), dict.UndefinedVendorID); m.FindAVPs(uint32(999999), dict.UndefinedVendorID) })
+			f = guard("FindAVP", func() {
+				m.FindAVP(uint32(264), dict.UndefinedVendorID)
+				m.FindAVPs(uint32(999999), dict.UndefinedVendorID)
+			})
 		}
 	}
 	used := totalAlloc() - before
